@@ -227,11 +227,12 @@ func runMock(c MCase) (msg string, nontrivial bool) {
 					replySeq++
 					reply := fmt.Sprintf("_INBOX.mq%d", replySeq)
 					payload, _ := json.Marshal(map[string]string{"query": "prefix=" + strings.TrimPrefix(q, "prefix=")})
-					if n := conn.Deliver(p.Subject, reply, payload); n != 1 {
-						return fmt.Sprintf("query request not delivered (%d)", n), nontrivial
+					resps, err := rn.QueryResponse(name, p.Subject, reply, payload)
+					if err != nil {
+						return err.Error(), nontrivial
 					}
-					if !waitFor(func() bool { return len(conn.Published(reply)) > 0 }) {
-						return "VERIF-INCONCLUSIVE: no query response within 10s", nontrivial
+					if len(resps) != 1 {
+						return fmt.Sprintf("the query request %s on the query event of %s got %d responses (a callback queued behind it on the resource has run): %q", payload, name, len(resps), resps), true
 					}
 					var qr struct {
 						Result *struct {
@@ -242,7 +243,7 @@ func runMock(c MCase) (msg string, nontrivial bool) {
 							Model, Collection json.RawMessage
 						}
 					}
-					data := conn.Published(reply)[0].Data
+					data := resps[0]
 					_ = json.Unmarshal(data, &qr)
 					if qr.Result == nil {
 						return fmt.Sprintf("step %d: query response %s", i, data), nontrivial
